@@ -959,29 +959,30 @@ func ruleC01SEL(w *World) []Ob {
 	d := w.D()
 	l.cfg = "D"
 	if fn := d.Func("(*gtree.Node).isLastOfHierarchy"); fn != nil {
-		t := &termer{p: d, node: fn.Params[0]}
-		got := map[string]string{}
+		ev := newCaseEval(d, fn.Params[0])
+		var all []vcase
 		allInstrs(fn, func(in ssa.Instruction) {
-			r, ok := in.(*ssa.Return)
-			if !ok {
-				return
+			if r, ok := in.(*ssa.Return); ok {
+				all = append(all, ev.argCases([]ssa.Value{rr(r)[0]}, ev.guardConds(r.Block()))...)
 			}
-			side := "main"
-			for _, g := range guardsOf(r.Block()) {
-				if tv, nonNil, ok := nilTest(g.Cond, g.Pol); ok && !nonNil {
-					side = "nil:" + t.term(tv, 0)
-				}
-			}
-			got[side] = t.term(rr(r)[0], 0)
 		})
 		want := "(n==at(children(parent(n)),(len(children(parent(n)))-1)))"
-		g := got["main"]
-		// comparing one and the same field of both nodes is accepted as well (whether that field is
-		// history-free is GLOB-1's business, not this rule's)
-		if m := sameFieldCompare.FindStringSubmatch(normTerm(g)); m != nil && m[1] == m[3] {
-			g = "(" + m[2] + "==" + m[4] + ")"
+		got := byAtom(all, "(parent(n)==nil)")
+		norm := func(g string) string {
+			// comparing one and the same field of both nodes is accepted as well (whether that field is
+			// history-free is GLOB-1's business, not this rule's)
+			if m := sameFieldCompare.FindStringSubmatch(normTerm(g)); m != nil && m[1] == m[3] {
+				g = "(" + m[2] + "==" + m[4] + ")"
+			}
+			return normTerm(g)
 		}
-		if normTerm(g) == normTerm(want) && got["nil:parent(n)"] == "false" {
+		okMain := len(got["false"]) > 0
+		for _, g := range got["false"] {
+			if norm(g) != normTerm(want) {
+				okMain = false
+			}
+		}
+		if okMain && len(got["*"]) == 0 && len(got["true"]) == 1 && got["true"][0] == "false" {
 			l.ok(d.FuncID(fn), "last child = identical to the parent's last element", d.Pos(fn.Pos()), "n == n.parent.children[len(n.parent.children)-1]; false without a parent", true, "last")
 		} else {
 			l.bad(d.FuncID(fn), "last child = identical to the parent's last element", d.Pos(fn.Pos()), fmt.Sprintf("isLastOfHierarchy computes %v, expected %s (and false without a parent)", got, want), "last")
